@@ -6,8 +6,10 @@ REPO = os.environ.get("VERIF_REPO", "/repo")
 REPO_SRC = os.path.join(REPO, "src")
 BUILD = os.environ.get("VERIF_BUILD", os.path.join(VERIF, "build"))
 JAR = os.path.join(VERIF, "third_party", "antlr4-runtime-4.11.1.jar")
-EVIDENCE = os.path.join(VERIF, "evidence")
-REPLAYS = os.path.join(VERIF, "replays")
+# the two overrides exist for runs against scratch trees (seeded changes): such runs must not
+# rewrite the committed evidence of the real tree
+EVIDENCE = os.environ.get("VERIF_EVIDENCE_DIR") or os.path.join(VERIF, "evidence")
+REPLAYS = os.environ.get("VERIF_REPLAYS_DIR") or os.path.join(VERIF, "replays")
 KNOWN_FINDINGS = os.path.join(VERIF, "known_findings.json")
 CPP_DIR = os.path.join(REPO_SRC, "vtlengine", "AST", "Grammar", "_cpp_parser")
 
